@@ -192,6 +192,15 @@ Definition hit_event (pieces : list cpiece) (atoms : list atom) (d : bytes) (h :
 Definition hit_events (pieces : list cpiece) (atoms : list atom) (hits : list hit) (d : bytes) : list event :=
   flat_map (hit_event pieces atoms d) hits.
 
+(* every event starts before the end of every later one: the order property the
+   completeness theorem (ChainCompleteProofs.run_chain_complete_starts) needs; it holds
+   for events in the order of their start offset and in the order of their end offset *)
+Fixpoint events_ordered_b (evs : list event) : bool :=
+  match evs with
+  | [] => true
+  | x :: t => forallb (fun ev => Nat.ltb (snd (fst x)) (snd ev)) t && events_ordered_b t
+  end.
+
 (* a chain of literal pieces, the hits being processed in the given order *)
 Definition scan_chain (pieces : list cpiece) (atoms : list atom) (hits : list hit) (d : bytes) : match_list :=
   run_chain pieces (hit_events pieces atoms hits d).
